@@ -713,6 +713,8 @@ def draw_op(rnd, sim, kinds, exts, weights, p_relfail, benign=False):
         nms = [0, 1, 3, 5, 10, (1 << 62) + 1, SMAX, SMAX - 23, SMAX - 24, 1 << 20, 1 << 30]
         if sz:
             nms += [(SMAX - HDR) // sz, (SMAX - HDR) // sz + 1, M64 // sz, M64 // sz + 1]
+            # products in (SIZE_MAX - header, SIZE_MAX]: representable alone, not together with the header
+            nms += [(SMAX - 8) // sz, (SMAX - 15) // sz, (SMAX - 22) // sz, (SMAX - 1) // sz, SMAX // sz]
         nm = rnd.choice(nms)
         if (1 << 24) < HDR + nm * sz <= LIMIT:
             nm = 5                   # do not really allocate gigabytes
